@@ -59,6 +59,10 @@ Value& MemberExpression::receiver(Context& ctx) const
   Value& val = _exp->value(ctx);
   if (val.lvalue() && !_exp->isConst() && _exp->symbolId() == nid)
     return ctx.allocate(val.clone());
+  /* the untyped null constant is filled in place by concat/insert: work on a
+   * copy, never on the value held by the program text */
+  if (_exp->isConst() && val.type() == Type::NO_TYPE)
+    return ctx.allocate(val.clone());
   return val;
 }
 
